@@ -298,8 +298,10 @@ class Prop(BaseProp):
                     src = os.path.join(sb, "cli.cmake")
                     with open(src, "w", encoding="utf-8", newline="") as f:
                         f.write(mt)
-                    rc, so, se = runner.run_cli([src, "-o", os.path.join(sb, "cliout")], cwd=sb, home=os.path.join(sb, "home"))
+                    entry = "main.py" if (n + idx) % 2 else "console"
+                    rc, so, se = runner.run_cli([src, "-o", os.path.join(sb, "cliout")], cwd=sb, home=os.path.join(sb, "home"), entry=entry)
                     res.count("cli_runs")
+                    res.see("cli_entry_points", entry)
                     if rc == 0:
                         res.violate(f"cli-exit-zero-on-invalid-input:{reason}:{kbase}", se[-200:], dict(wx, text=mt))
         res.sig = sig_hash(sorted(sigs) + [idx])
